@@ -553,7 +553,8 @@ async fn xchg_send(stype: &str, sock: Option<&mut AnySock>, raws: &mut Vec<Optio
     if !sent {
         return last;
     }
-    let deadline = tokio::time::Instant::now() + Duration::from_secs(2);
+    let nraws = raws.iter().flatten().count();
+    let deadline = tokio::time::Instant::now() + Duration::from_secs(if nraws > 8 { 6 } else { 2 });
     let mut buf = [0u8; 256];
     loop {
         for r in raws.iter_mut().flatten() {
@@ -571,12 +572,16 @@ async fn xchg_send(stype: &str, sock: Option<&mut AnySock>, raws: &mut Vec<Optio
                 }
                 return "ok".to_string();
             }
-            if let Ok(Ok(n)) = tokio::time::timeout(Duration::from_millis(20), r.s.read(&mut buf)).await {
+            // (with many raw connections a pass must stay short: poll each one without waiting)
+            if let Ok(Ok(n)) = tokio::time::timeout(Duration::from_millis(if nraws > 8 { 1 } else { 20 }), r.s.read(&mut buf)).await {
                 r.extra.extend_from_slice(&buf[..n]);
             }
         }
         if tokio::time::Instant::now() > deadline {
             return "fail:timeout-read".to_string();
+        }
+        if nraws > 8 {
+            tokio::time::sleep(Duration::from_millis(5)).await;
         }
     }
 }
